@@ -118,3 +118,19 @@ async def settle(n=20):
     """let ready callbacks run without advancing virtual time (beyond clock-read ticks)"""
     for _ in range(n):
         await asyncio.sleep(0)
+
+
+def library_tasks(loop):
+    """live tasks created by the code under test (tasks of the harness/simulator are excluded)"""
+    out = []
+    cur = asyncio.current_task(loop)
+    for t in asyncio.all_tasks(loop):
+        if t is cur or t.done():
+            continue
+        co = t.get_coro()
+        code = getattr(co, "cr_code", None) or getattr(co, "gi_code", None)
+        fn = code.co_filename if code is not None else ""
+        if "/verif/" in fn:
+            continue
+        out.append(t)
+    return out
